@@ -49,9 +49,16 @@ def run(ctx):
         if x[0] == "call" and len(x[2]) == 1 and ("Iterator>::sum" in str(x[1]) or cn(x[1]).endswith("Iterator::sum")):
             mp = x[2][0]
             is_map = mp[0] == "call" and ("Iterator>::map" in str(mp[1]) or cn(mp[1]).endswith("Iterator::map"))
-            it_ok = is_map and mp[2][0][0] == "call" and cn(mp[2][0][1]) == "core::slice::iter" and mp[2][0][2] == (arg(2),)
+            src_ = mp[2][0] if is_map else None
+            copied_ = False
+            if src_ is not None and src_[0] == "call" and len(src_[2]) == 1 and ("Iterator>::copied" in str(src_[1]) or cn(src_[1]).endswith(("Iterator::copied", "Iterator::cloned"))):
+                src_, copied_ = src_[2][0], True          # iter().copied(): the same slices, by value (&[u8] is Copy)
+            it_ok = is_map and src_[0] == "call" and cn(src_[1]) == "core::slice::iter" and src_[2] == (arg(2),)
             if it_ok:
                 clo = mp[2][1]
+                # `<[u8]>::len` passed as a function instead of a closure calling it
+                if clo[0] in ("fn", "cs", "aggr") and "core::slice::<impl [u8]>::len" in str(clo) and "closure" not in str(clo[:2]):
+                    return True
                 if clo[0] == "aggr" and clo[1][0] == "closure":
                     cf = [c for k, c in F.fns.items() if c.get("path") == clo[1][1]]
                     if len(cf) == 1:
@@ -160,7 +167,18 @@ def run(ctx):
                         if any(N(f) == ("istrue", ("is_null", HEAP)) for f in fs):
                             g3 = b.diverges(tg)
                     null_sw = bb
-    ctx.check(g3, "N3", "null-check", "a null allocation diverges before the pointer is used", A.site(), how="switch on is_null(heap_ptr); null edge panics",
+    how3 = "switch on is_null(heap_ptr); null edge panics"
+    if not g3 and HEAP is not None:
+        # `NonNull::new(alloc(..)).expect(..)` (None exactly for a null pointer: std contract; unwrap/expect of None diverges): every
+        # later use of the allocation then goes through that unwrapped pointer - which becomes "the heap pointer" of N4-N6
+        NN = ("unwrap", ("nonnull_new", HEAP))
+        uses_raw = any(HEAP in G_sub(N(c[2])) and NN not in G_sub(N(c[2])) for c in callv(A, ["core::ptr::copy_nonoverlapping", "alloc::boxed::Box::from_raw"]))
+        uses_nn = any(NN in G_sub(N(c[2])) for c in callv(A, ["core::ptr::copy_nonoverlapping"]))
+        if uses_nn and not uses_raw:
+            g3 = True
+            HEAP = NN
+            how3 = "NonNull::new(alloc(..)).expect(..): diverges exactly when the allocation is null"
+    ctx.check(g3, "N3", "null-check", "a null allocation diverges before the pointer is used", A.site(), how=how3,
               why="no diverging null edge found")
     # ---- copies
     copies = callv(A, ["core::ptr::copy_nonoverlapping"])
@@ -484,3 +502,13 @@ def eq_is_fieldwise(F, inst):
         else:
             return False, "terminator %s" % t["k"]
     return False, "no return reached"
+
+
+def G_sub(t, acc=None):
+    acc = set() if acc is None else acc
+    if isinstance(t, tuple):
+        acc.add(t)
+        for x in t:
+            if isinstance(x, tuple):
+                G_sub(x, acc)
+    return acc
